@@ -2,6 +2,7 @@ package rules
 
 import (
 	"fmt"
+	"go/constant"
 	"go/token"
 	"go/types"
 	"sort"
@@ -28,7 +29,7 @@ const (
 func init() {
 	register(&Spec{
 		ID:          "C11",
-		Explanation: "Decides (the decision procedure is loop-free; all rules are path/dominance queries, the header-write census is module-wide): R1 every write of Access-Control-Allow-Origin writes either the constant '*' arriving only over the any-origin edge, or the request's Origin value arriving only through the success edge of a membership test of that very value in the configured list; R2 Allow-Credentials is the constant 'true', only after an origin grant on the same header map and under the configured flag, and '*'+credentials is rejected by sanitize with an error that is propagated up to a panic in NewRouter/NewGroup; R3 every CORS header write is behind the false edge of deny, and deny = (len(Origins)==0); R4 cors.handle is called only on the served edge of Tree.Handler (404/405 never reach it); R5 on a preflight no path reaches the origin grant without the success edges of the method test and of the requested-header test; (A case-sensitive header-name comparison refuses more, not less: it is reported by C12.R1, not here.)",
+		Explanation: "Decides (the decision procedure is loop-free; all rules are path/dominance queries, the header-write census is module-wide): R1 every write of Access-Control-Allow-Origin writes either the constant '*' arriving only over the any-origin edge, or the request's Origin value arriving only through the success edge of a membership test of that very value in the configured list; R2 Allow-Credentials is the constant 'true', only after an origin grant on the same header map and under the configured flag, and '*'+credentials is rejected by sanitize with an error that is propagated up to a panic in NewRouter/NewGroup; R3 every CORS header write is behind the false edge of deny, and deny = (len(Origins)==0); R4 cors.handle is called only on the served edge of Tree.Handler (404/405 never reach it); R5 on a preflight no path reaches the origin grant without the success edges of the method test and of the requested-header test; (A case-sensitive header-name comparison refuses more, not less: it is reported by C12.R1, not here.) R16 two named same-typed values are not handed to each other's slots (OPTIONS builder / 405 builder).",
 		Assumptions: commonAssumptions,
 		Run: func(c *Ctx) {
 			ruleOriginGrant(c, "R1")
@@ -47,6 +48,7 @@ func init() {
 			ruleResponseHeadersAreNotWiped(c, "R13")
 			ruleReadersWriteNothing(c, "R14", "router")
 			ruleCallersSlicesAreNotRetained(c, "R15", "WithCORS")
+			ruleSameTypedSlotsAreNotCrossed(c, "R16")
 			ruleHeaderNameCase(c, "R12")
 		},
 	})
@@ -1364,8 +1366,52 @@ func ruleCorsProvenance(c *Ctx, rule string) {
 		"maxAgeString":         `call<strconv.Itoa>(recv.MaxAge)`,
 	}
 	got := map[string][]string{}
+	// a store of the zero value that no other store of the field can precede only spells out the state of a fresh
+	// object ("c.maxAgeString = \"\"" at the top of sanitize): it derives nothing
+	var fieldStores []ssa.Instruction
 	sanitizeInstrs(c, sanitize, func(in ssa.Instruction) {
-		if base, field, val, ok := fieldStoreAny(in); ok && base == "recv" {
+		if base, _, _, ok := fieldStoreAny(in); ok && base == "recv" {
+			fieldStores = append(fieldStores, in)
+		}
+	})
+	spellsOutZero := func(in ssa.Instruction, field string, val ssa.Value) bool {
+		k, isK := val.(*ssa.Const)
+		if !isK {
+			return false
+		}
+		if k.Value != nil {
+			switch k.Value.Kind() {
+			case constant.String:
+				if constant.StringVal(k.Value) != "" {
+					return false
+				}
+			case constant.Bool:
+				if constant.BoolVal(k.Value) {
+					return false
+				}
+			case constant.Int:
+				if k.Int64() != 0 {
+					return false
+				}
+			default:
+				return false
+			}
+		}
+		for _, other := range fieldStores {
+			if other == in || other.Parent() != in.Parent() {
+				continue
+			}
+			if _, f2, _, _ := fieldStoreAny(other); f2 != field {
+				continue
+			}
+			if (&an.Query{Target: func(t ssa.Instruction) bool { return t == in }}).Search(an.After(other)) != nil {
+				return false
+			}
+		}
+		return true
+	}
+	sanitizeInstrs(c, sanitize, func(in ssa.Instruction) {
+		if base, field, val, ok := fieldStoreAny(in); ok && base == "recv" && !spellsOutZero(in, field, val) {
 			got[field] = append(got[field], c.O.Of(val).String())
 		}
 		// a helper that fills the field through a pointer: joinHeaders(&c.allowHeadersString, c.AllowHeaders)
@@ -1416,6 +1462,39 @@ func ruleCorsProvenance(c *Ctx, rule string) {
 		}
 		goodAH = j == 2
 	}
+	// a list of one element is a list: the Join of a configured list is not behind a length test that a single
+	// element fails (len(list) > 1)
+	sanitizeInstrs(c, sanitize, func(in ssa.Instruction) {
+		base, field, val, ok := fieldStoreAny(in)
+		if !ok || base != "recv" {
+			return
+		}
+		t := c.O.Of(val)
+		if t.Op != "call" || t.S != "strings.Join" || len(t.Args) == 0 {
+			return
+		}
+		listTerm := t.Args[0].String()
+		skipsOne := an.DominatedByEdge(in, func(b *ssa.BasicBlock, succ int) bool {
+			return edgeHas(b, succ, func(cond ssa.Value, truth bool) bool {
+				bare, neg := stripNot(cond)
+				bo, isB := bare.(*ssa.BinOp)
+				if !isB {
+					return false
+				}
+				holds := truth != neg
+				for _, v := range []ssa.Value{bo.X, bo.Y} {
+					if c.O.Of(v).String() != "call<builtin:len>("+listTerm+")" {
+						continue
+					}
+					if at1, ok1 := cmpWithConst(bo, v, 1); ok1 && at1 != holds {
+						return true
+					}
+				}
+				return false
+			})
+		})
+		c.R.Add(rule, c.fk(sanitize), "derive:"+field+"/single-element-list-is-joined", c.pos(in), !skipsOne, ifelse(!skipsOne, "no length test in front of the Join excludes a list of one element", "the configured list "+listTerm+" is joined only when it has more than one element: with exactly one configured header the string stays empty and the response header (Access-Control-Allow-Headers / -Expose-Headers) is never written although the configuration names it"))
+	})
 	c.R.Add(rule, c.fk(sanitize), "derive:allowHeadersString", c.P.Pos(sanitize.Pos()), goodAH, ifelse(goodAH, "= Join(AllowHeaders, \",\") or the '*' form", fmt.Sprintf("allowHeadersString is derived as %v", ah)))
 }
 
